@@ -579,3 +579,137 @@ theorem bounded_exists (g : Graph) (root : Nat) : ∃ M, Bounded g root M := by
   omega
 
 end C12
+
+namespace C12
+
+/-! ## fuel sufficiency of the sequential walk -/
+
+theorem budget_afterVisit_le (cfg : Cfg) (w : WSt) (c d M : Nat) :
+    budget cfg.lim (afterVisit cfg w c d).1.vis M ≤ budget cfg.lim w.vis M := by
+  cases hb : (Vis.visit cfg.lim w.vis c d).2 with
+  | false =>
+    have hv : Vis.visit cfg.lim w.vis c d = ((Vis.visit cfg.lim w.vis c d).1, false) := by rw [← hb]
+    have : (afterVisit cfg w c d).1.vis = w.vis := by simp only [afterVisit]; exact budget_visit_false hv
+    rw [this]; exact Nat.le_refl _
+  | true =>
+    have hv : Vis.visit cfg.lim w.vis c d = ((Vis.visit cfg.lim w.vis c d).1, true) := by rw [← hb]
+    obtain ⟨h1, h2⟩ := remv_visit hv
+    show budget cfg.lim (Vis.visit cfg.lim w.vis c d).1 M ≤ _
+    induction M with
+    | zero => simp [budget]
+    | succ m ih =>
+      simp only [budget]
+      by_cases hm : m = c
+      · subst hm; omega
+      · rw [h2 m hm]; omega
+
+/-- fuel that suffices for `seqWalk … c d s` / `seqList … ks d s`, in terms of the visitor's remaining budget `b` -/
+def needW (cfg : Cfg) (Dg b d : Nat) : Nat := 1 + b * (Dg + 2) + (if cfg.skipRoot = true ∧ d = 0 then Dg + 2 else 0)
+def needL (Dg b n : Nat) : Nat := n + 2 + b * (Dg + 2)
+
+def SeqFuelW (g : Graph) (cfg : Cfg) (M fuel : Nat) : Prop :=
+  ∀ c d s, c < M → needW cfg (maxDeg g M) (budget cfg.lim s.vis M) d ≤ fuel →
+    (seqWalk g cfg fuel c d s).1 ≠ .fuel ∧ budget cfg.lim (seqWalk g cfg fuel c d s).2.vis M ≤ budget cfg.lim s.vis M
+
+def SeqFuelL (g : Graph) (cfg : Cfg) (M fuel : Nat) : Prop :=
+  ∀ ks d s, (∀ k ∈ ks, k < M) → d ≥ 1 → needL (maxDeg g M) (budget cfg.lim s.vis M) ks.length ≤ fuel →
+    (seqList g cfg fuel ks d s).1 ≠ .fuel ∧ budget cfg.lim (seqList g cfg fuel ks d s).2.vis M ≤ budget cfg.lim s.vis M
+
+theorem seq_fuel {g : Graph} {cfg : Cfg} {root M : Nat} (hB : Bounded g root M) :
+    ∀ fuel, SeqFuelW g cfg M fuel ∧ SeqFuelL g cfg M fuel := by
+  intro fuel
+  induction fuel with
+  | zero =>
+    constructor
+    · intro c d s _ h; simp [needW] at h
+    · intro ks d s _ _ h; simp [needL] at h
+  | succ n ih =>
+    obtain ⟨ihW, ihL⟩ := ih
+    constructor
+    · intro c d s hc hneed
+      rw [seqWalk_succ]
+      -- after the visitor accepted (or was bypassed) in state `w` with budget `bw`
+      have after : ∀ (w : WSt), needL (maxDeg g M) (budget cfg.lim w.vis M) (maxDeg g M) ≤ n →
+          budget cfg.lim w.vis M ≤ budget cfg.lim s.vis M →
+          (match (fetchStep g cfg c w.logs).1 with
+            | .error e => ((Outcome.abort e, ({ w with logs := (fetchStep g cfg c w.logs).2 } : WSt)) : Outcome × WSt)
+            | .ok ks => seqList g cfg n ks (d + 1) { w with logs := (fetchStep g cfg c w.logs).2 }).1 ≠ .fuel ∧
+          budget cfg.lim (match (fetchStep g cfg c w.logs).1 with
+            | .error e => ((Outcome.abort e, ({ w with logs := (fetchStep g cfg c w.logs).2 } : WSt)) : Outcome × WSt)
+            | .ok ks => seqList g cfg n ks (d + 1) { w with logs := (fetchStep g cfg c w.logs).2 }).2.vis M
+            ≤ budget cfg.lim s.vis M := by
+        intro w hn hle
+        cases hf : (fetchStep g cfg c w.logs).1 with
+        | error e => exact ⟨(fun h => nomatch h), hle⟩
+        | ok ks =>
+          simp only []
+          rw [fetchStep_fst] at hf
+          have hlen := eff_len (M := M) hB.2.1 hf
+          have hks : ∀ k ∈ ks, k < M := by
+            intro k hk
+            rcases eff_links hf with hg | rfl
+            · exact hB.2.2 c ks hg k hk
+            · simp at hk
+          have := ihL ks (d + 1) { w with logs := (fetchStep g cfg c w.logs).2 } hks (by omega)
+            (by simp only [needL] at hn ⊢; omega)
+          exact ⟨this.1, Nat.le_trans this.2 hle⟩
+      by_cases hsk : cfg.skipRoot = true ∧ d = 0
+      · have hc' : (!cfg.skipRoot || d != 0) = false := by simp [hsk.1, hsk.2]
+        simp only [hc', Bool.false_eq_true, if_false, Bool.not_true]
+        refine after s ?_ (Nat.le_refl _)
+        simp only [needW, hsk, and_self, if_true] at hneed
+        simp only [needL]; omega
+      · have hc' : (!cfg.skipRoot || d != 0) = true := by
+          cases hs : cfg.skipRoot <;> simp_all
+        simp only [hc', if_true]
+        simp only [needW, hsk, if_false] at hneed
+        cases hb : (afterVisit cfg s c d).2 with
+        | false =>
+          simp only [Bool.not_false, if_true]
+          exact ⟨(fun h => nomatch h), budget_afterVisit_le cfg s c d M⟩
+        | true =>
+          simp only [Bool.not_true, Bool.false_eq_true, if_false]
+          have hv : Vis.visit cfg.lim s.vis c d = ((Vis.visit cfg.lim s.vis c d).1, true) := by
+            simp only [afterVisit] at hb; rw [← hb]
+          have hbud : budget cfg.lim (afterVisit cfg s c d).1.vis M + 1 ≤ budget cfg.lim s.vis M :=
+            budget_visit hv M hc
+          refine after _ ?_ (by omega)
+          have hmul := Nat.mul_le_mul_right (maxDeg g M + 2) hbud
+          rw [Nat.add_mul, Nat.one_mul] at hmul
+          simp only [needL]
+          generalize budget cfg.lim (afterVisit cfg s c d).1.vis M * (maxDeg g M + 2) = X at hmul ⊢
+          generalize budget cfg.lim s.vis M * (maxDeg g M + 2) = Y at hmul hneed
+          omega
+    · intro ks d s hks hd hneed
+      cases ks with
+      | nil => exact ⟨by simp [seqList], by simp [seqList]⟩
+      | cons k ks =>
+        rw [seqList_succ_cons]
+        have hnsk : ¬(cfg.skipRoot = true ∧ d = 0) := by omega
+        simp only [needL, List.length_cons] at hneed
+        have hw := ihW k d s (hks k List.mem_cons_self) (by simp only [needW, hnsk, if_false]; omega)
+        cases ho : (seqWalk g cfg n k d s).1 with
+        | ok =>
+          simp only []
+          have hmul := Nat.mul_le_mul_right (maxDeg g M + 2) hw.2
+          have hl := ihL ks d (seqWalk g cfg n k d s).2 (fun x hx => hks x (List.mem_cons_of_mem _ hx)) hd
+            (by simp only [needL]; omega)
+          exact ⟨hl.1, Nat.le_trans hl.2 hw.2⟩
+        | abort e => exact ⟨(fun h => nomatch h), hw.2⟩
+        | fuel => exact absurd ho hw.1
+
+/-- a fuel bound for the whole sequential walk from `root` -/
+def seqFuel (g : Graph) (cfg : Cfg) (M : Nat) : Nat := (budget cfg.lim [] M + 1) * (maxDeg g M + 2) + 1
+
+theorem seqWalk_fuel_ok {g : Graph} {cfg : Cfg} {root M : Nat} (hB : Bounded g root M) (fuel : Nat)
+    (hf : seqFuel g cfg M ≤ fuel) : (seqWalk g cfg fuel root 0 {}).1 ≠ .fuel := by
+  refine ((seq_fuel hB fuel).1 root 0 {} hB.1 ?_).1
+  simp only [needW, seqFuel] at hf ⊢
+  have : (budget cfg.lim [] M + 1) * (maxDeg g M + 2) = budget cfg.lim [] M * (maxDeg g M + 2) + (maxDeg g M + 2) := by
+    rw [Nat.add_mul, Nat.one_mul]
+  show 1 + budget cfg.lim ({} : WSt).vis M * (maxDeg g M + 2) + _ ≤ fuel
+  have e : ({} : WSt).vis = [] := rfl
+  rw [e]
+  split <;> omega
+
+end C12
